@@ -93,9 +93,16 @@ MonotonePlanOf(plans) ==
      /\ (plans[t][i][3] = INF => plans[t][i+1][3] = INF)         \* the timed part is a prefix
 
 \* committed nodes never change (action property: old fixed prefix is a prefix of the new plan)
+(* Committed = the nodes below a train's fixed index. What is committed are the link EVENTS (Arrive / Clear): the Fake   *)
+(* marker that opens an alternate branch carries no event and is taken out again, although timed and below the fixed  *)
+(* index, when a train waiting in front of a switch is routed back onto the primary branch (seen on the composite     *)
+(* networks: a train standing on its origin link in front of a locked siding).                                        *)
+IsEventNode(n) == n[1] # 3
 CommittedStableOf(oldplans, oldfixed, plans) ==
-  \A t \in 1..Len(plans) : \A i \in 1..oldfixed[t] :
-     i <= Len(plans[t]) /\ plans[t][i] = oldplans[t][i]
+  \A t \in 1..Len(plans) :
+     LET old == SelectSeq(SubSeq(oldplans[t], 1, oldfixed[t]), IsEventNode)
+         new == SelectSeq(plans[t], IsEventNode)
+     IN Len(old) <= Len(new) /\ \A i \in 1..Len(old) : new[i] = old[i]
 
 ----------------------------------------------------------------------------
 (* Level A, part 2: validity of a returned plan (C05). rp = sequence over trains of sequences of *)
@@ -149,7 +156,7 @@ CONSTANTS NT,          \* number of trains
           Depart,      \* [1..NT -> Nat]
           S, U, O,     \* spacing, start-up, lockout overlap margin
           Horizon,
-          Rules        \* gating rules in force: {"flip","lock","prevce","lead","quiet","spacing","exitce"} = the code; fault configs drop one
+          Rules        \* rules in force: {"flip","lock","prevce","lead","quiet","spacing","exitce","faketime"} = the code; fault configs drop one
 
 VARIABLES auth,    \* [Links -> Seq([tr, ae, ax, ce, cx])]: link_disp_auths without the sentinel
           route,   \* [1..NT -> index into Routes[t]]
@@ -191,6 +198,7 @@ Quiet(t) == "quiet" \in Rules => \A u \in 1..NT : u # t => pos[u] = fixed[u]
 \* time one more node of train t (one iteration of the loop in TrainDisp::advance)
 Advance(t) ==
   /\ Quiet(t) /\ pos[t] < Len(Path(t))
+  /\ Path(t)[pos[t] + 1].k # 3
   /\ LET n    == pos[t] + 1
          nd   == Path(t)[n]
          base == IF n = 1 THEN Depart[t] ELSE T[t][n-1] + Path(t)[n-1].d
@@ -226,6 +234,21 @@ Advance(t) ==
           IN /\ base <= Horizon /\ auth' = a3 /\ T' = [T EXCEPT ![t] = Append(@, base)]
   /\ pos' = [pos EXCEPT ![t] = @ + 1] /\ UNCHANGED <<route, fixed>>
 
+\* a Fake node (k = 3: the marker that opens an alternate branch, or a join) carries no event: it is passed when the train
+\* reaches it. advance() has two ways over it: the regular loop body, and the "last real node before a blockage" branch,
+\* which steps the free index over Fake nodes lying exactly at the blocked offset. Offsets are below this model's
+\* abstraction, so the second way is simply always possible here. With the rule "faketime" (the repaired code, F-C05-3)
+\* both ways time the node; without it the second way leaves it untimed and everything after it inherits +inf.
+AdvanceFake(t) ==
+  /\ Quiet(t) /\ pos[t] < Len(Path(t)) /\ pos[t] >= 1
+  /\ Path(t)[pos[t] + 1].k = 3
+  /\ LET n == pos[t] + 1
+         base == T[t][n-1] + Path(t)[n-1].d
+     IN /\ base <= Horizon \/ "faketime" \notin Rules
+        /\ \E tm \in {base} \cup (IF "faketime" \in Rules THEN {} ELSE {INF}) :
+              T' = [T EXCEPT ![t] = Append(@, tm)]
+  /\ pos' = [pos EXCEPT ![t] = @ + 1] /\ UNCHANGED <<auth, route, fixed>>
+
 \* fix_advance
 Commit(t) == /\ fixed[t] < pos[t] /\ fixed' = [fixed EXCEPT ![t] = pos[t]]
              /\ UNCHANGED <<auth, route, pos, T>>
@@ -234,6 +257,7 @@ Commit(t) == /\ fixed[t] < pos[t] /\ fixed' = [fixed EXCEPT ![t] = pos[t]]
 Rewind(t) ==
   /\ Quiet(t) /\ pos[t] > fixed[t] /\ pos[t] < Len(Path(t))
   /\ LET n == pos[t]  nd == Path(t)[n]  L == nd.l IN
+     IF nd.k = 3 THEN auth' = auth ELSE
      IF nd.k = 1 THEN
        LET fp == PrevArrPos(t, n)
            fl == IF fp = 0 THEN 0 ELSE Path(t)[fp].l
@@ -258,10 +282,10 @@ Reroute(t) ==
        /\ route' = [route EXCEPT ![t] = r]
   /\ UNCHANGED <<auth, pos, T, fixed>>
 
-Next == \E t \in 1..NT : Advance(t) \/ Commit(t) \/ Rewind(t) \/ Reroute(t)
+Next == \E t \in 1..NT : Advance(t) \/ AdvanceFake(t) \/ Commit(t) \/ Rewind(t) \/ Reroute(t)
 Spec == Init /\ [][Next]_vars
 \* the code advances a train whenever it can and commits what it keeps: strong fairness of both
-FairSpec == Spec /\ \A t \in 1..NT : SF_vars(Advance(t)) /\ SF_vars(Commit(t))
+FairSpec == Spec /\ \A t \in 1..NT : SF_vars(Advance(t)) /\ SF_vars(AdvanceFake(t)) /\ SF_vars(Commit(t))
 
 (* Level A on Level B *)
 OppExclusive     == OppExclusiveOf(H, PlansB)
@@ -275,6 +299,10 @@ CommittedStable  == [][CommittedStableOf(PlansB, fixed, PlansB')]_vars
 AuthAgrees == \A t \in 1..NT : \A w \in Windows(PlanB(t)) :
                  \E i \in 1..Len(auth[w.link]) :
                     LET a == auth[w.link][i] IN a.tr = t /\ a.ae = w.ae /\ a.ce = w.ce /\ a.cx = w.cx /\ a.ax = w.ax
+
+\* every node the planner has gone past has a pass time (what advance() reads back as the resume time, and what
+\* update_free_path asserts of the node before the free node)
+TimedPrefix == \A t \in 1..NT : \A i \in 1..pos[t] : T[t][i] < INF
 
 AllExited == \A t \in 1..NT : pos[t] = Len(Path(t))
 =============================================================================
